@@ -203,7 +203,13 @@ def rod_cases(rng, robin_share=0.15):
 def _gen_rod_point(rng):
     cls, p, nm = rod_cases(rng)
     L = p['L']
-    return dict(cls=cls, name=nm, params=p, x=rng.uniform(0.1, 0.9) * L, t=rng.uniform(0.02, 0.5) * L * L / p['kappa'])
+    tau = rng.uniform(0.02, 0.5)
+    if rng.random() < 0.5 and 'kappa' in p:
+        # slow diffusion at early dimensionless time: k_n^2 t is large while kappa k_n^2 t is not, so a
+        # cut-off or scaling that forgets kappa shows (seeded C14-4 / C08-4 were invisible at kappa t ~ L^2)
+        p['kappa'] = 10 ** rng.uniform(-2.3, 0.5)
+        tau = 10 ** rng.uniform(-2.3, -0.3)
+    return dict(cls=cls, name=nm, params=p, x=rng.uniform(0.1, 0.9) * L, t=tau * L * L / p['kappa'])
 
 
 def _chk_rod_pde(c):
